@@ -44,6 +44,7 @@ def _close(a, b, tol=1e-7):
     return abs(a - b) <= tol * max(abs(a), abs(b), 1e-300)
 
 
+@H.under_contrary_config
 def _run_case(case):
     import tea_tasting as tt
     cfg = case["cfg"]
